@@ -35,8 +35,9 @@ class InspD:
     def __init__(self,name,run=('true',),exp_mat=(),exp_prod=()):
         self.name=name; self.run=list(run); self.exp_mat=list(exp_mat); self.exp_prod=list(exp_prod)
 class LayoutD:
-    def __init__(self,keys,steps,inspect=(),expires=FAR_FUTURE,readme='',key_alias=None):
+    def __init__(self,keys,steps,inspect=(),expires=FAR_FUTURE,readme='',key_alias=None,same_material=None):
         self.keys=list(keys); self.steps=list(steps); self.inspect=list(inspect); self.expires=expires; self.readme=readme
+        self.same_material=same_material or {}      # id -> pool key whose MATERIAL this id also names (a key with its own identifier but the bytes of another)
         self.key_alias=key_alias or {}     # table id -> pool key actually stored there (aliasing; normally identity)
 class LinkD:
     def __init__(self,name,materials=None,products=None,return_value=0,command=()):
@@ -79,7 +80,10 @@ class PipelineBase(Obligation):
         b=self.b
         steps=[b.step(s.name,s.threshold,[b.keyid(keyid_str(k)) for k in s.pubkeys],s.exp_mat,s.exp_prod) for s in ld.steps]
         insp=[b.inspection(i.name,i.run,i.exp_mat,i.exp_prod) for i in ld.inspect]
-        keys=[(b.keyid(keyid_str(k)),self.mk_pubkey(ld.key_alias.get(k,k))) for k in ld.keys]
+        def pk(k):
+            if k in ld.same_material: return b.pubkey(pool_keyid(k),value=bytes([ld.same_material[k]]))
+            return self.mk_pubkey(ld.key_alias.get(k,k))
+        keys=[(b.keyid(keyid_str(k)),pk(k)) for k in ld.keys]
         exp=ld.expires if isinstance(ld.expires,Agg) else b.datetime(ld.expires)
         return b.layout(steps,insp,keys,exp,ld.readme)
     def mk_artifacts(self,d):
@@ -116,15 +120,26 @@ class PipelineBase(Obligation):
         sn=none() if step_name is None else some(mk_str(step_name))
         return [Ref(Cell(mb)),km,mk_str(self.link_dir),sn]
     def dir_str(self,comps):
-        return self.link_dir+''.join('/%s.%s'%(s,keyid_str(k)[:8]) for s,k in comps)
+        return self.link_dir+''.join('/%s.%s%s'%(c[0],keyid_str(c[1])[:8],c[2] if len(c)>2 else '') for c in comps)      # optional third element: a suffix after the prefix (a backup copy of a sub-layout directory, say)
     # ------------------------------------------------------------------ environment stubs
     def s_now(self,e,run,a,f): return copy_val(run.ghost['now'])
     def s_glob(self,e,run,a,f):
         pat=need_conc(byte_list(a[0]),'glob pattern').decode()
         d,_,namepat=pat.rpartition('/')
-        if any(c in d for c in '*?['): raise Unsupported('glob metacharacter in directory part')
         toks=glob_compile(namepat)
         if toks is None: return err(Opaque('PatternError'))
+        if any(c in d for c in '*?['):
+            # metacharacters in the directory part: every ghost directory whose components match (glob matches component-wise;
+            # results come back in alphabetical order of the whole path)
+            pats=[glob_compile(c) for c in d.split('/')]
+            if any(p is None for p in pats): return err(Opaque('PatternError'))
+            dirs=[]
+            for gd in run.ghost['dirs']:
+                comps=gd.split('/')
+                if len(comps)==len(pats) and all(glob_match(p,c) for p,c in zip(pats,comps)): dirs.append(gd)
+            paths=sorted(gd+'/'+n for gd in dirs for n in run.ghost['dirs'][gd] if glob_match(toks,n))
+            run.ghost['stage'].append(('glob',d,namepat))
+            return ok(Iter([ok(Agg('PathBuf',[mk_string(p)])) for p in paths]))
         files=run.ghost['dirs'].get(d,{})
         names=sorted(n for n in files if glob_match(toks,n))
         run.ghost['stage'].append(('glob',d,namepat))
@@ -189,7 +204,7 @@ def conc_layout(ld,m,now_secs=None):
     exp=ld.expires
     if isinstance(exp,Agg): exp_s=model_value(m,exp.f[0].z()); exp_s=exp_s-(1<<64) if exp_s>>63 else exp_s; exp_n=model_value(m,exp.f[1].z())
     else: exp_s=exp; exp_n=0
-    return {'readme':ld.readme,'keys':list(ld.keys),'key_alias':{str(k):v for k,v in ld.key_alias.items()},'expires_secs':exp_s,'expires_nanos':exp_n,
+    return {'readme':ld.readme,'keys':list(ld.keys),'key_alias':{str(k):v for k,v in ld.key_alias.items()},'same_material':{str(k):v for k,v in getattr(ld,'same_material',{}).items()},'expires_secs':exp_s,'expires_nanos':exp_n,
             'steps':[{'name':s.name,'threshold':model_value(m,s.threshold.z()) if isinstance(s.threshold,Int) else s.threshold,'pubkeys':list(s.pubkeys),
                       'expected_materials':getattr(s,'exp_mat_json',[]),'expected_products':getattr(s,'exp_prod_json',[])} for s in ld.steps],
             'inspect':[{'name':i.name,'run':(i.dyn_run(m) if hasattr(i,'dyn_run') else i.run),'expected_materials':getattr(i,'exp_mat_json',[]),'expected_products':getattr(i,'exp_prod_json',[])} for i in ld.inspect]}
@@ -207,5 +222,5 @@ def conc_scenario(m,layout_block,caller_keys,dirs,now,step_name=None,repeat=12):
     else: ns=now
     return {'kind':'verify','now_secs':ns,'caller_keys':[{'key':k,'label':l} for k,l in caller_keys],'step_name':step_name,
             'layout':conc_block(layout_block,m),
-            'dirs':[{'path':[[s,k] for s,k in d],'files':[dict({'step':f.step,'prefix_of':f.prefix_of,'parsable':f.parsable,'block':conc_block(f.block,m)},**({'short_raw':f.short_raw} if f.short_raw is not None else {})) for f in files]} for d,files in dirs.items()],
+            'dirs':[{'path':[list(c) for c in d],'files':[dict({'step':f.step,'prefix_of':f.prefix_of,'parsable':f.parsable,'block':conc_block(f.block,m)},**({'short_raw':f.short_raw} if f.short_raw is not None else {})) for f in files]} for d,files in dirs.items()],
             'repeat':repeat}
